@@ -1,7 +1,136 @@
 import Driver.Proto
-/- driver commands of area `arglist` (stub until the area is built) -/
-namespace Driver.ArgList
+import MesonModel.ArgList.Spec
+import MesonModel.Generated.ArgTables
+/-
+Driver commands of area `arglist`.
 
-def handle (cmd : String) (fs : List String) : String := "bad-op"
+  run   <cls>|<gnu>|<default dirs>|<script>    replay a script over several objects; answer = outputs `;`-joined,
+                                              then `#`, then the raw state of every object
+  class <cls>|<arg>                            `_can_dedup`, `_should_prepend`
+  gf    <arg>                                  `GROUP_FLAGS.search`
+  spec  <cls>|<list>|<batch>                   `specAdd`
+  tables <cls>                                 the generated tables, for the round-trip self test
+  tablesok <cls>                               `tablesOk` and `tablesWitness`
+
+Lists: items `,`-joined, each item `s` followed by the code points (so `s` is the empty string and the
+empty field the empty list).  Script: ops `;`-joined, tokens of an op `:`-joined.
+-/
+namespace Driver.ArgList
+open MesonModel.ArgList MesonModel.Generated Driver
+
+def decItem (w : String) : List Char := decodeStr ((w.drop 1).toString)
+
+def decList (f : String) : List Arg :=
+  (f.splitOn ",").filterMap (fun w => if w.isEmpty then none else some (decItem w))
+
+def encItem (a : Arg) : String := "s" ++ encodeStr a
+def encList (l : List Arg) : String := ",".intercalate (l.map encItem)
+
+def tablesOf (cls : String) : Option Tables :=
+  match cls with
+  | "base" => some baseTables
+  | "clike" => some clikeTables
+  | "d" => some dTables
+  | _ => none
+
+def cfgOf (cls : String) (gnu : Bool) (dirs : List Arg) : Option Cfg :=
+  (tablesOf cls).map fun T =>
+    { K := T.classify, always := T.alwaysDedupArgs,
+      native := if cls == "clike" then .clike gnu dirs else .plain }
+
+def parseOp (ts : List String) : Option Op :=
+  match ts with
+  | ["iadd", l] => some (.iadd (decList l))
+  | ["append", a] => some (.append (decItem a))
+  | ["appd", a] => some (.appendDirect (decItem a))
+  | ["extd", l] => some (.extendDirect (decList l))
+  | ["extl", l] => some (.extendLflags (decList l))
+  | ["ins", i, a] => i.toInt?.map (fun i => .insert i (decItem a))
+  | ["set", i, a] => i.toInt?.map (fun i => .setItem i (decItem a))
+  | ["del", i] => i.toInt?.map .delItem
+  | ["get", i] => i.toInt?.map .getItem
+  | ["iter"] => some .iter
+  | ["cp"] => some .copy
+  | ["len"] => some .len
+  | ["eql", l] => some (.eqList (decList l))
+  | ["nat", c] => some (.toNative (c == "1"))
+  | _ => none
+
+def parseHOp (ts : List String) : Option HOp :=
+  match ts with
+  | "on" :: i :: rest => do
+    let i ← i.toNat?
+    let op ← parseOp rest
+    pure (.on i op)
+  | ["copy", i] => i.toNat?.map .copy
+  | ["newfrom", i] => i.toNat?.map .newFrom
+  | ["new", l] => some (.new (decList l))
+  | ["add", i, l] => i.toNat?.map (fun i => .add i (decList l))
+  | ["radd", l, i] => i.toNat?.map (fun i => .radd (decList l) i)
+  | ["iaddobj", i, j] => do
+    let i ← i.toNat?
+    let j ← j.toNat?
+    pure (.iaddObj i j)
+  | ["eqobj", i, j] => do
+    let i ← i.toNat?
+    let j ← j.toNat?
+    pure (.eqObj i j)
+  | _ => none
+
+def showOut : Out → String
+  | .none => "-"
+  | .list l => "L" ++ encList l
+  | .nat n => s!"N{n}"
+  | .bool b => "B" ++ boolStr b
+  | .arg a => "A" ++ encItem a
+  | .indexError => "E"
+
+def showState (s : State) : String :=
+  s!"C{encList s.container}!P{encList s.pre}!Q{encList s.post}!N{boolStr s.noc}"
+
+def runScript (cfg : Cfg) : List State → List HOp → List String → List State × List String
+  | h, [], acc => (h, acc.reverse)
+  | h, op :: ops, acc =>
+    let r := hstep cfg h op
+    runScript cfg r.1 ops (showOut r.2 :: acc)
+
+def showDedup : Dedup → String
+  | .noDedup => "N" | .unique => "U" | .overridden => "O"
+
+def showTables (T : Tables) : String :=
+  "/".intercalate ([T.prependPrefixes, T.dedup2Prefixes, T.dedup2Suffixes, T.dedup2Args,
+    T.dedup1Prefixes, T.dedup1Suffixes, T.dedup1Args, T.alwaysDedupArgs].map encList)
+
+def handle (cmd : String) (fs : List String) : String :=
+  match cmd, fs with
+  | "run", [cls, gnu, dirs, script] =>
+    match cfgOf cls (gnu == "1") (decList dirs) with
+    | none => "bad-class"
+    | some cfg =>
+      let toks := (script.splitOn ";").filter (fun s => !s.isEmpty)
+      match toks.mapM (fun o => parseHOp (o.splitOn ":")) with
+      | none => "bad-script"
+      | some ops =>
+        let (h, outs) := runScript cfg [] ops []
+        ";".intercalate outs ++ "#" ++ "@".intercalate (h.map showState)
+  | "class", [cls, a] =>
+    match tablesOf cls with
+    | none => "bad-class"
+    | some T => showDedup (T.dd (decItem a)) ++ boolStr (T.pp (decItem a))
+  | "gf", [a] => boolStr (groupFlags (decItem a))
+  | "spec", [cls, l, b] =>
+    match tablesOf cls with
+    | none => "bad-class"
+    | some T => encList (specAdd T.classify (decList l) (decList b))
+  | "tables", [cls] =>
+    match tablesOf cls with
+    | none => "bad-class"
+    | some T => showTables T
+  | "tablesok", [cls] =>
+    match tablesOf cls with
+    | none => "bad-class"
+    | some T => boolStr (tablesOk T) ++ "|" ++
+      (match tablesWitness T with | none => "none" | some w => encItem w)
+  | _, _ => "bad-op"
 
 end Driver.ArgList
